@@ -145,6 +145,10 @@ def collect(rep, tier, seed, prefixes):
             rep.exclude('random history %s timed out' % c['name'])
             continue
         except Exception as ex:
+            if rep.pid != 'C07':
+                # (the collection is also used by the C04 check: an exception of the extend-split strategy is judged by the C07 check, not there)
+                rep.exclude('extend-split history %s raised %r (judged by the C07 check)' % (c['name'], ex))
+                continue
             if rep.pid == 'C07' and c['version'] not in (0, 1, 2):
                 rep.drift('version %s (outside the documented versions 0-2): random history %s raised %r' % (c['version'], c['name'], ex))
                 continue
